@@ -63,7 +63,7 @@ def ext_portion(chk):
     from . import common as C, repoext as X
     xvc = C.ensure_xvc()
     flags = X.flags_from_source()
-    n = 30 if chk.tier == "quick" else 500
+    n = 30 if chk.tier == "quick" else 300
     scs = []
     cdir = os.path.join(C.ROOT, "corpus", "C02", "ext")          # witnesses in the format of the Ext histories run first
     for fn in sorted(os.listdir(cdir)) if os.path.isdir(cdir) else []:
@@ -116,7 +116,7 @@ def run(chk, replay=None):
                 chk.fail("oracle", "after item %d: %s" % (j, "; ".join(bad[:3])), dict(X.to_replay(sc), failing_item=j, kind="impl-history", portion="ext"), name="extcas")
                 break
         return chk
-    res = K.drive(chk, replay, "C02", gen, K.c02_oracle, nontrivial, n_quick=120, n_thorough=800,
+    res = K.drive(chk, replay, "C02", gen, K.c02_oracle, nontrivial, n_quick=120, n_thorough=500,
                    rule=("random histories (1-3 paths from a pool of shapes incl. nested, no extension, blanks, non-ASCII, dotfile, double extension; "
                          "contents from a pool incl. empty, CR/LF mixes, NUL at byte 7999/8000/8001, duplicates; 4 algorithms cycled, 4 methods, "
                          "3 text-or-binary modes; user write / write-through / delete / touch and track / carry-in / recheck with their options; "
